@@ -380,6 +380,14 @@ impl<'a, A: AcceptableMasterList, C: Clock, F: Filter, R: Rng, S: PtpInstanceSta
 
     /// Handle the announce receipt timer going off
     pub fn handle_announce_receipt_timer(&mut self) -> PortActionIterator<'_> {
+        if matches!(self.port_state, PortState::Faulty) {
+            // A faulty port takes no part in the protocol and only leaves that state
+            // through a successful peer delay exchange. Keep the timer running so the
+            // port can time out normally once it is listening again.
+            let duration = self.config.announce_duration(&mut self.rng);
+            return actions![PortAction::ResetAnnounceReceiptTimer { duration }];
+        }
+
         if self
             .instance_state
             .with_ref(|state| state.default_ds.slave_only)
